@@ -7,7 +7,7 @@ import ast
 import z3
 from . import ty
 from .ty import Int, Bool, NoneT, Str, Opt, Seq, Tup, List, Deque, Dict, Set, Obj, Opaque, Fun
-from .core import (Unknown, Untranslatable, ContractError, Val, PyConst, PyTuple, BoundMethod, FuncRef, Closure, ProviderCall,
+from .core import (MemView, Unknown, Untranslatable, ContractError, Val, PyConst, PyTuple, BoundMethod, FuncRef, Closure, ProviderCall,
                    View, State, Outcome, Obligation, Heap, fresh, none_val, int_val, bool_val, type_heap_keys)
 
 EXC_PARENTS = {
@@ -119,6 +119,7 @@ class Executor:
         self.lenient = getattr(contract, "lenient", False)
         self.muted = 0
         self.view_st = None
+        self.inlined_nodes = {}
 
     # ------------------------------------------------------------------ ids / obligations
     def oid(self, kind):
@@ -743,6 +744,10 @@ class Executor:
         if isinstance(obj, tuple) and obj and obj[0] == "listlit":
             return BoundMethod(obj, name)
         if isinstance(obj, PyConst):
+            v = obj.v
+            if isinstance(v, tuple) and v and v[0] in ("module", "builtin", "dotted"):
+                base = v[1] if v[0] != "module" else v[1].split(".")[-1]
+                return PyConst(("dotted", f"{base}.{name}"))
             return PyConst(("attr", obj.v, name))
         if isinstance(obj, FuncRef):
             return FuncRef(obj.qual + "." + name)
@@ -1228,7 +1233,41 @@ class Executor:
         yield ("listcomp", self.comp_value(e, st)), st
 
     def ev_SetComp(self, e, st):
-        raise Untranslatable("set comprehension")
+        """{x for x in src if cond}: a new set given by its membership predicate (elt must be the loop variable)."""
+        g = e.generators[0]
+        if len(e.generators) != 1 or not (isinstance(e.elt, ast.Name) and isinstance(g.target, ast.Name)
+                                          and e.elt.id == g.target.id):
+            raise Untranslatable("set comprehension (only {x for x in src if cond} is supported)")
+        src, s1 = self.ev1(g.iter, st)
+        src = self.iter_value(src, s1)
+        if isinstance(src, Val) and isinstance(src.t, (Set, Dict)):
+            et = src.t.k
+            base = lambda x, src=src: z3.Select(self.dom(s1, src), x)
+        elif isinstance(src, MemView):
+            et, base = src.elt_t, src.pred
+        else:
+            v = self.view_of(src, s1)
+            et = v.elt_t
+
+            def base(x, v=v):
+                ii = fresh("i", z3.IntSort())
+                return z3.Exists([ii], z3.And(0 <= ii, ii < v.length, self.coerce(v.at(ii), et, s1).z == x))
+        k = fresh("k", et.sort())
+        env = dict(s1.env)
+        env[g.target.id] = Val(et, k)
+        s2 = State(env, s1.heap, s1.pc, s1.next_ref, s1.ghost, s1.labels)
+        conds = []
+        for c in g.ifs:
+            cv, s2 = self.ev1(c, s2)
+            conds.append(self.truth(cv, s2))
+        new = self.alloc(s1, Set(et))
+        d = fresh("dom", self.dom(s1, new).sort())
+        s1.assume(z3.ForAll([k], z3.Select(d, k) == z3.And(base(k), *conds)))
+        self.set_dom(s1, new, d)
+        c = fresh("card", z3.IntSort())
+        s1.assume(c >= 0)
+        self.set_card(s1, new, c)
+        yield new, s1
 
     def ev_DictComp(self, e, st):
         if not self.lenient:
